@@ -595,134 +595,3 @@ pub fn c01_block_scalar_indent_buffered() {
     std::mem::forget(breaks);
     std::mem::forget(sc);
 }
-
-// ------------------------------------------------------------------------------------------------
-// C01 units
-// ------------------------------------------------------------------------------------------------
-
-/// Flow nesting: one step from EVERY flow level: error exactly at 255, never wraps (so the counter
-/// bounds flow nesting for histories of any length).
-#[kani::proof]
-#[kani::unwind(4)]
-pub fn c01_increase_flow_level() {
-    let mut sc = Scanner::new(StrInput::new(""));
-    let lvl: u8 = kani::any();
-    sc.flow_level = lvl;
-    let r = sc.increase_flow_level();
-    if lvl == 255 {
-        assert!(r.is_err(), "C01: flow level wrapped instead of reporting the recursion limit");
-        assert!(sc.flow_level == 255, "C01: flow level changed on error");
-    } else {
-        assert!(r.is_ok() && sc.flow_level == lvl + 1, "C01: flow level not incremented");
-    }
-    kani::cover!(r.is_err(), "must: recursion limit reached");
-    std::mem::forget(r);
-    std::mem::forget(sc);
-}
-
-/// Character source: `spaces` blanks, then up to 3 more characters, then end of input.
-pub struct IndentGen {
-    pub spaces: usize,
-    pub tail: [u8; 3],
-    pub tail_len: usize,
-    pub pos: usize,
-}
-impl Iterator for IndentGen {
-    type Item = char;
-    fn next(&mut self) -> Option<char> {
-        let p = self.pos;
-        if p < self.spaces {
-            self.pos += 1;
-            Some(' ')
-        } else if p - self.spaces < self.tail_len {
-            self.pos += 1;
-            Some(self.tail[p - self.spaces] as char)
-        } else {
-            None
-        }
-    }
-}
-
-/// C01/C10: skipping block-scalar indentation through the 16-slot BufferedInput never asks for more
-/// look-ahead than the buffer holds and never peeks past what it looked ahead (arraydeque panics),
-/// for every indentation 0..=19, every run of 0..=19 spaces and every following 0..=3 characters.
-#[kani::proof]
-#[kani::unwind(24)]
-pub fn c01_block_scalar_indent_buffered() {
-    let spaces: usize = kani::any();
-    kani::assume(spaces <= 19);
-    let indent: usize = kani::any();
-    kani::assume(indent <= 19);
-    let mut tail = [0u8; 3];
-    let alphabet: [u8; 4] = [b' ', b'\n', b'\r', b'a'];
-    let mut i = 0;
-    while i < 3 {
-        let k: u8 = kani::any();
-        kani::assume(k < 4);
-        tail[i] = alphabet[k as usize];
-        i += 1;
-    }
-    let tail_len: usize = kani::any();
-    kani::assume(tail_len <= 3);
-    if sym::playback() {
-        eprintln!("VERIF-INPUT spaces={} indent={} tail={:?}", spaces, indent, &tail[..tail_len]);
-    }
-    let gen = IndentGen { spaces, tail, tail_len, pos: 0 };
-    let mut sc = Scanner::new(crate::input::BufferedInput::new(gen));
-    let mut breaks = String::new();
-    sc.skip_block_scalar_indent(indent, &mut breaks);
-    assert!(sc.mark.col() <= indent.max(sc.mark.col()), "unreachable");
-    kani::cover!(spaces >= 15 && indent >= 15, "must: indentation at the buffer size reached");
-    std::mem::forget(breaks);
-    std::mem::forget(sc);
-}
-
-// ------------------------------------------------------------------------------------------------
-// PROBE: scalar scanning with non-growing string stubs
-// ------------------------------------------------------------------------------------------------
-pub fn nogrow_push(s: &mut String, c: char) {
-    assert!((c as u32) < 0x80, "harness bound: non-ASCII pushed");
-    let v = unsafe { s.as_mut_vec() };
-    let len = v.len();
-    assert!(len < v.capacity(), "harness bound: string capacity exceeded");
-    unsafe {
-        std::ptr::write(v.as_mut_ptr().add(len), c as u8);
-        v.set_len(len + 1);
-    }
-}
-pub fn nogrow_push_str(s: &mut String, t: &str) {
-    let b = t.as_bytes();
-    let mut i = 0;
-    while i < b.len() {
-        nogrow_push(s, b[i] as char);
-        i += 1;
-    }
-}
-pub fn noop_reserve(_s: &mut String, _n: usize) {}
-
-#[kani::proof]
-#[kani::unwind(8)]
-#[kani::stub(std::string::String::push, nogrow_push)]
-#[kani::stub(std::string::String::push_str, nogrow_push_str)]
-#[kani::stub(std::string::String::reserve, noop_reserve)]
-pub fn probe_plain_nogrow_4() {
-    let mut buf = [0u8; MAXT];
-    let n: usize = kani::any();
-    kani::assume(n <= 4);
-    let alphabet: [u8; 7] = [b'a', b'b', b' ', b'\n', b':', b'#', b'-'];
-    sym_text(&mut buf, 4, &alphabet);
-    let s = as_str(&buf, n, "text");
-    let mut sc = Scanner::new(StrInput::new(s));
-    sc.stream_start_produced = true;
-    sc.buf_whitespaces = String::with_capacity(8);
-    sc.buf_leading_break = String::with_capacity(8);
-    sc.buf_trailing_breaks = String::with_capacity(8);
-    sc.input.lookahead(1);
-    let r = sc.scan_plain_scalar();
-    if let Ok(Token(span, TokenType::Scalar(_, v))) = &r {
-        assert!(v.len() <= n);
-        assert!(span.end.index() <= n);
-    }
-    std::mem::forget(r);
-    std::mem::forget(sc);
-}
